@@ -87,6 +87,7 @@ type Run struct {
 	tableBy, rowBy, colBy, residu *benchproc.Projection
 	stream                        []resRec
 	raws                          []rawRes
+	umAll                         map[[2]string]string // unit metadata of the whole run, parsed by the harness
 	builder                       *benchtab.Builder // kept for the in-process perturbation runs (C15)
 	opts                          benchtab.TableOpts
 	exprs                         []string // -table, -row, -col, -ignore as given
